@@ -241,6 +241,20 @@ class _Stateful:
         mpath = args[0] if args else None
         if kwargs.get('n') == 98 or (len(args) > 1 and args[1] == 98):
             return super().run(*args, **kwargs)          # zero assignments in the child: the state stays what it was given
+        if kwargs.get('n') == 96 or (len(args) > 1 and args[1] == 96):
+            # the state is a container that is UPDATED IN PLACE and assigned back (`self.user_state += [x]`): the same object,
+            # new contents; its length plays the part of the integer of the other modes
+            st = self.user_state if isinstance(self.user_state, list) else []
+            mark(mpath, 'us_pre %d' % (len(st) + 1))
+            st.append(len(st) + 1)
+            self.user_state = st
+            mark(mpath, 'us_post %d' % len(st))
+            r = super().run(*args, **kwargs)
+            mark(mpath, 'us_pre %d' % (len(st) + 1))
+            st.append(len(st) + 1)
+            self.user_state = st
+            mark(mpath, 'us_post %d' % len(st))
+            return r
         base = self.user_state if isinstance(self.user_state, int) else 0
         mark(mpath, 'us_pre %d' % (base + 1))
         self.user_state = base + 1
